@@ -199,3 +199,24 @@ Example fetch_nonvacuous :
   [OUnit; OOne (Some [Some 1; None]); OUnit; ORows [[Some 2; Some 5]; [Some 3; Some 6]]; ORows []; ORows [];
    OOne None].
 Proof. vm_compute. reflexivity. Qed.
+
+(* ------------------------------------------------------------------ observers *)
+Definition is_peek (o : op) : bool := match o with Peek => true | _ => false end.
+Definition erase (ops : list op) : list op := filter (fun o => negb (is_peek o)) ops.
+Fixpoint outs_erase (ops : list op) (outs : list out) : list out :=
+  match ops, outs with
+  | o :: r, x :: xs => if is_peek o then outs_erase r xs else x :: outs_erase r xs
+  | _, _ => []
+  end.
+
+(* reading description (or any other attribute) at ANY points of ANY call sequence changes no answer of the other
+   calls and not the final state: the sequence behaves exactly as with those reads erased *)
+Theorem peek_erasure_l : forall ops s, outs_erase ops (run s ops) = run s (erase ops) /\ final s ops = final s (erase ops).
+Proof.
+  induction ops as [|o ops IH]; intros s; [split; reflexivity|].
+  destruct (is_peek o) eqn:P.
+  - destruct o; try discriminate. cbn. apply IH.
+  - unfold erase. cbn [filter]. rewrite P. cbn [negb]. fold (erase ops).
+    cbn [run final]. destruct (step s o) as [s' x] eqn:E. cbn [outs_erase fst]. rewrite P.
+    destruct (IH s') as [A B]. rewrite A. split; [reflexivity|exact B].
+Qed.
